@@ -60,17 +60,24 @@ def campaign(tier, seed):
             print("SPEC-DRIFT: %d cases where the Impl-shaped DataType model predicts a loss that the code does not show" % drift)
         os.remove(tv_out)
         kinds = {}
+        judged = {}     # cases whose input validates: only these are judged by C01/C02
         samples = []
         with open(trace) as f:
             for i, l in enumerate(f):
                 e = json.loads(l)
                 kinds[e["kind"]] = kinds.get(e["kind"], 0) + 1
+                if e.get("valid_in"):
+                    judged[e["kind"]] = judged.get(e["kind"], 0) + 1
                 if i in (5, 5000, hstat["cases"] - 3):
                     samples.append({k: e.get(k) for k in ("kind", "label", "parse", "valid_in", "valid_out", "same_text")})
+        # vacuity guard: every generated section-shape module must be a valid input (a generator slip once made a
+        # quarter of them invalid, i.e. silently unjudged)
+        if judged.get("shape", 0) != kinds.get("shape", 0):
+            raise ToolError("%d generated shape modules do not validate: generator defect" % (kinds.get("shape", 0) - judged.get("shape", 0)))
         res = {"records": recs, "states": mc["distinct"] + tv["distinct"], "transitions": mc["generated"] + tv["generated"],
                "traces": hstat["cases"], "samples": samples,
-               "relevant": {"C01": hstat["cases"], "C02": hstat["cases"], "C03": hstat["cases"], "C05": hstat["cases"]},
-               "detail": {"cases_by_kind": kinds, "design_level_losses_listed_by_TLC": losses, "spec_drift": drift,
+               "relevant": {"C01": sum(judged.values()), "C02": sum(judged.values()), "C03": hstat["cases"], "C05": sum(judged.values())},
+               "detail": {"cases_by_kind": kinds, "cases_with_valid_input_by_kind": judged, "design_level_losses_listed_by_TLC": losses, "spec_drift": drift,
                           "corpus": "every .wat/.wasm under /repo/tests/test_inputs and every module directive "
                                     "(valid, invalid, malformed) of /repo/tests/wasm-tools/**/*.wast"},
                "wall_s": round(time.time() - t0, 1)}
